@@ -518,7 +518,18 @@ func (g *pg) someAddress() []byte {
 // a value of arbitrary shape on top of the stack: primitive / container with sharing / cycle / deep nesting
 func (g *pg) anyValue() {
 	r := g.r
-	switch r.Intn(10) {
+	k := r.Intn(10)
+	// the two shapes with a cycle the shipped detector does not see cost seconds per use (Serialize unrolls them, BuildParamToNative dies
+	// on them): 3 % of the values instead of 20 %
+	if k == 2 || k == 7 {
+		if !r.Chance(15) {
+			k = 9
+		}
+	}
+	if k == 8 && g.calm { // 2^20 values when unfolded: seconds in BuildParamToNative
+		k = 9
+	}
+	switch k {
 	case 0, 1:
 		g.somePrim()
 	case 2: // a = [1, a]  (cycle the shipped detector does not see)
@@ -706,7 +717,7 @@ func (g *pg) sysOp() {
 		g.push('?', -1)
 	case 4, 5, 6, 7: // Native.Invoke(args, method, address, version)
 		c := nativeNames[r.Intn(len(nativeNames))]
-		if g.calm && !r.Chance(2) {
+		if !r.Chance(map[bool]int{true: 2, false: 5}[g.calm]) {
 			g.tameValue()
 		} else {
 			g.anyValue()
@@ -1175,14 +1186,15 @@ func heavyLine(i int) string {
 		a.pushBytes([]byte("transfer")).pushBytes(ontA[:]).pushI(0).syscall("Ontology.Native.Invoke")
 		return fmt.Sprintf("V 200000 %s", hx.Hex(a.b))
 	}
-	// x = [0, x] 2.2 million times (13 opcodes per level, 3*10^7 gas: what one Contract.Create costs), no cycle anywhere
-	a.pushI(0).op(opNEWARRAY).pushI(2200000)
+	// x = [0, x] a million times (13 opcodes per level), no cycle anywhere. The node's 1 GB stack lasts for ~2.1 million levels
+	// (3*10^7 gas: what one Contract.Create costs); the worker's 384 MB for ~8*10^5
+	a.pushI(0).op(opNEWARRAY).pushI(1000000)
 	start := len(a.b)
 	a.op(opSWAP).pushI(0).op(opNEWARRAY, opDUP).pushI(0).op(opAPPEND, opDUP, opROT, opAPPEND, opSWAP, opDEC, opDUP)
 	a.jmp(opJMPIF, start-len(a.b))
 	a.op(opDROP)
 	a.pushBytes([]byte("transfer")).pushBytes(ontA[:]).pushI(0).syscall("Ontology.Native.Invoke")
-	return fmt.Sprintf("V 30000000 %s", hx.Hex(a.b))
+	return fmt.Sprintf("V 14000000 %s", hx.Hex(a.b))
 }
 
 func Gen(r *hx.Rand, tier string, i int) string {
